@@ -416,3 +416,169 @@ func TestC18Pings(t *testing.T) {
 		}
 	}
 }
+
+// ---------------------------------------------------------------------------
+// C03 / C05 with handlers that take seconds to hours of virtual time
+// ---------------------------------------------------------------------------
+
+func TestC03SlowHandlers(t *testing.T) { slowHandlers(t, "C03") }
+func TestC05SlowHandlers(t *testing.T) { slowHandlers(t, "C05") }
+
+func slowHandlers(t *testing.T, prop string) {
+	e := loadEnv(t, prop)
+	defer e.finish(t)
+	total := e.pick(40, 400)
+	durs := []time.Duration{0, time.Millisecond, time.Second, 1900 * time.Millisecond, 2100 * time.Millisecond, 5 * time.Second, 31 * time.Second, time.Minute, 10 * time.Minute, time.Hour}
+	for idx := 0; idx < total; idx++ {
+		if !e.want("slow", idx) {
+			continue
+		}
+		r := rig.Rand(e.Seed, prop, "slow", idx)
+		nLines := 8 + r.Intn(20)
+		type rec struct {
+			kind         string // E enter, X exit
+			n            int
+			at           time.Duration
+			before, after int // members of #c seen by the tracker at entry and at exit (foreground)
+		}
+		var log []rec
+		var mu chan struct{} = make(chan struct{}, 1)
+		mu <- struct{}{}
+		hung := true
+		var maxDur time.Duration
+		synctest.Test(t, func(t *testing.T) {
+			conn, ep := newClient(true, 0)
+			conn.EnableStateTracking()
+			st := conn.StateTracker()
+			t0 := time.Now()
+			members := func() int {
+				if ch := st.GetChannel("#c"); ch != nil {
+					return len(ch.Nicks)
+				}
+				return 0
+			}
+			mk := func(bg bool) client.HandlerFunc {
+				return func(_ *client.Conn, l *client.Line) {
+					if !strings.HasPrefix(l.Nick, "n") {
+						return
+					}
+					n, err := strconv.Atoi(l.Nick[1:])
+					if err != nil {
+						return
+					}
+					d := durs[rig.Rand(e.Seed, prop, "slowd", idx, n, bg).Intn(len(durs))]
+					if bg {
+						d = durs[rig.Rand(e.Seed, prop, "slowd", idx, n, bg).Intn(3)]
+					}
+					before := members()
+					<-mu
+					if d > maxDur {
+						maxDur = d
+					}
+					kind := "E"
+					if bg {
+						kind = "BE"
+					}
+					log = append(log, rec{kind: kind, n: n, at: time.Since(t0), before: before})
+					mu <- struct{}{}
+					if d > 0 {
+						time.Sleep(d)
+					}
+					after := members()
+					<-mu
+					kind = "X"
+					if bg {
+						kind = "BX"
+					}
+					log = append(log, rec{kind: kind, n: n, at: time.Since(t0), before: before, after: after})
+					mu <- struct{}{}
+				}
+			}
+			nh := 1 + r.Intn(3)
+			for k := 0; k < nh; k++ {
+				conn.HandleFunc("JOIN", mk(false))
+			}
+			conn.HandleBG("JOIN", mk(true))
+			if err := conn.Connect(); err != nil {
+				e.R.Inconcl("connect: " + err.Error())
+				hung = false
+				return
+			}
+			mc := ep.Last()
+			mc.SendLine(":me!ident@host JOIN #c")
+			for n := 1; n <= nLines; n++ {
+				mc.SendLine(fmt.Sprintf(":n%d!i@h JOIN #c", n))
+			}
+			// everything is queued; let virtual time run until all handlers are done
+			for waited := 0; waited < 100000; waited++ {
+				synctest.Wait()
+				<-mu
+				exits := 0
+				for _, x := range log {
+					if x.kind == "X" || x.kind == "BX" {
+						exits++
+					}
+				}
+				mu <- struct{}{}
+				if exits >= nLines*(nh+1) {
+					break
+				}
+				time.Sleep(time.Minute)
+			}
+			time.Sleep(time.Second)
+			synctest.Wait()
+			conn.Close()
+			ep.Release()
+			hung = false
+		})
+		if hung {
+			e.R.Inconcl(fmt.Sprintf("slow:%d bubble did not finish", idx))
+			continue
+		}
+		e.R.Eval(1)
+		// oracle: one line at a time (foreground), and the tracker shows exactly line n (n+1 members incl. me) throughout
+		open := map[int]int{}
+		bad := ""
+		for _, x := range log {
+			switch x.kind {
+			case "E":
+				for other, cnt := range open {
+					if other != x.n && cnt > 0 {
+						bad = fmt.Sprintf("foreground handler for line %d entered at +%v while a handler of line %d was still running", x.n, x.at, other)
+					}
+				}
+				open[x.n]++
+				if prop == "C05" && x.before != x.n+1 {
+					bad = fmt.Sprintf("at the entry of a foreground handler for line %d the tracker showed %d members, want %d", x.n, x.before, x.n+1)
+				}
+			case "X":
+				open[x.n]--
+				if prop == "C05" && x.after != x.n+1 {
+					bad = fmt.Sprintf("at the end of a foreground handler for line %d that ran for virtual %v the tracker showed %d members, want %d (a later line was applied while it ran)", x.n, x.at, x.after, x.n+1)
+				}
+			case "BE":
+				if prop == "C05" && x.before < x.n+1 {
+					bad = fmt.Sprintf("a background handler for line %d saw %d members, the line itself makes it %d", x.n, x.before, x.n+1)
+				}
+			}
+			if bad != "" {
+				break
+			}
+		}
+		if bad != "" {
+			sig := "c03|slow-handler-overlap"
+			if prop == "C05" {
+				sig = "c05|slow-handler-tracker"
+				if strings.Contains(bad, "entered at") {
+					sig = "c05|slow-handler-overlap"
+				}
+			}
+			e.R.Violate(rig.Violation{Sig: sig, Detail: bad, Case: fmt.Sprintf("slow:%d", idx)})
+		}
+		e.R.Class(fmt.Sprintf("slow|maxdur=%v|lines=%d", maxDur, nLines/8))
+		e.R.Count("slow_handler_invocations", int64(len(log)/2))
+		if idx%13 == 0 {
+			e.R.Sample(map[string]interface{}{"virtual_time_session": true, "lines": nLines, "longest_handler": maxDur.String(), "invocations": len(log) / 2})
+		}
+	}
+}
